@@ -112,7 +112,9 @@ def one_case(px, py, x, y, R, sample=False):
     R.case((px, py, x, y), bool(want) or (x[0] == 'F' and y[0] == 'F'))
     wit = {'px': refcat.ref_print(px), 'py': refcat.ref_print(py), 'x': refcat.ref_print(x), 'y': refcat.ref_print(y)}
     X, Y = refcat.from_ref(x), refcat.from_ref(y)
-    uni = Unification(wit['px'], wit['py'])
+    h = hash((wit['px'], wit['py'], wit['x'])) % 4
+    # the patterns may be given as text or as category objects (either side)
+    uni = Unification(refcat.from_ref(px) if h in (1, 3) else wit['px'], refcat.from_ref(py) if h in (2, 3) else wit['py'])
     try:
         ok = uni(X, Y)                      # contract compares with the reference verdict
     except Exception as e:
